@@ -4,6 +4,7 @@ import (
 	"go/ast"
 	"go/parser"
 	"go/token"
+	"math/big"
 	"path/filepath"
 	"strconv"
 )
@@ -251,4 +252,102 @@ func c05CutFact(fd *ast.FuncDecl, cs *c05Consts) int {
 		return true
 	})
 	return cut
+}
+
+// c05BigConst: an integer constant expression as a big integer (int64 extremes included): literals, unary minus,
+// conversions, package-level constants of the given package, math.MinInt64 / math.MaxInt64, + and -
+func c05BigConst(e ast.Expr, cs *c05Consts, depth int) (*big.Int, bool) {
+	if depth > 8 || e == nil {
+		return nil, false
+	}
+	switch v := e.(type) {
+	case *ast.BasicLit:
+		if v.Kind == token.INT {
+			n, ok := new(big.Int).SetString(v.Value, 0)
+			return n, ok
+		}
+	case *ast.ParenExpr:
+		return c05BigConst(v.X, cs, depth+1)
+	case *ast.UnaryExpr:
+		if v.Op == token.SUB {
+			if n, ok := c05BigConst(v.X, cs, depth+1); ok {
+				return new(big.Int).Neg(n), true
+			}
+		}
+	case *ast.CallExpr:
+		if id, ok := v.Fun.(*ast.Ident); ok && len(v.Args) == 1 && (id.Name == "int64" || id.Name == "int") {
+			return c05BigConst(v.Args[0], cs, depth+1)
+		}
+	case *ast.Ident:
+		if d, ok := cs.decl[v.Name]; ok {
+			return c05BigConst(d, cs, depth+1)
+		}
+	case *ast.SelectorExpr:
+		if x, ok := v.X.(*ast.Ident); ok && x.Name == "math" {
+			switch v.Sel.Name {
+			case "MaxInt64":
+				n, _ := new(big.Int).SetString("9223372036854775807", 10)
+				return n, true
+			case "MinInt64":
+				n, _ := new(big.Int).SetString("-9223372036854775808", 10)
+				return n, true
+			}
+		}
+		// pkg.Const of the package the resolver was loaded for
+		if d, ok := cs.decl[v.Sel.Name]; ok {
+			return c05BigConst(d, cs, depth+1)
+		}
+	case *ast.BinaryExpr:
+		a, ok1 := c05BigConst(v.X, cs, depth+1)
+		b, ok2 := c05BigConst(v.Y, cs, depth+1)
+		if ok1 && ok2 {
+			switch v.Op {
+			case token.ADD:
+				return new(big.Int).Add(a, b), true
+			case token.SUB:
+				return new(big.Int).Sub(a, b), true
+			}
+		}
+	}
+	return nil, false
+}
+
+// c05DefaultRange: the time range newFIterator uses when the statement has no RANGE: the two elements of the TimeRange
+// composite literal assigned to the filter's range on the branch without a given range (keyed or positional), resolved
+func c05DefaultRange(fd *ast.FuncDecl, cs *c05Consts) (mn, mx *big.Int, ok bool) {
+	ast.Inspect(fd.Body, func(n ast.Node) bool {
+		cl, isCl := n.(*ast.CompositeLit)
+		if !isCl || ok || len(cl.Elts) != 2 {
+			return true
+		}
+		name := ""
+		switch t := cl.Type.(type) {
+		case *ast.SelectorExpr:
+			name = t.Sel.Name
+		case *ast.Ident:
+			name = t.Name
+		}
+		if name != "TimeRange" {
+			return true
+		}
+		var es [2]ast.Expr
+		for i, el := range cl.Elts {
+			if kv, isKv := el.(*ast.KeyValueExpr); isKv {
+				if k, isId := kv.Key.(*ast.Ident); isId && k.Name == "MinTs" {
+					es[0] = kv.Value
+				} else if isId && k.Name == "MaxTs" {
+					es[1] = kv.Value
+				}
+			} else {
+				es[i] = el
+			}
+		}
+		a, ok1 := c05BigConst(es[0], cs, 0)
+		b, ok2 := c05BigConst(es[1], cs, 0)
+		if ok1 && ok2 {
+			mn, mx, ok = a, b, true
+		}
+		return true
+	})
+	return
 }
